@@ -1,0 +1,14 @@
+//go:build verif
+
+/*
+ * Verification hooks. This file is compiled only with the build tag "verif";
+ * it adds exported entry points to unexported behaviour and changes nothing else.
+ */
+
+package log
+
+// VerifClearExpiredFiles runs the retention scan of the given rolling file
+// appender synchronously (rotate starts it in a goroutine after each rotation).
+func VerifClearExpiredFiles(c *RollingFileAppender) {
+	c.clearExpiredFiles()
+}
